@@ -41,6 +41,15 @@ type stringer string
 
 func (s stringer) String() string { return string(s) }
 
+// bothStringer implements fmt.Stringer AND fastlog.FastLog with different texts, as the library's own views and table
+// entries do (their String() is a whole log text, their FastLog the bare fields): Line.Stringer must render String().
+type bothStringer string
+
+func (s bothStringer) String() string { return string(s) }
+func (s bothStringer) FastLog(l *fastlog.Line) *fastlog.Line {
+	return l.String("fastlog-rendering-of", string(s))
+}
+
 func unhex(s string) ([]byte, bool) {
 	if s == "-" {
 		return []byte{}, true
@@ -254,7 +263,11 @@ func (f *field) apply(l *fastlog.Line) {
 	case "bytes":
 		l.Bytes(name, f.a)
 	case "stg":
-		l.Stringer(stringer(f.a))
+		if len(f.a)%2 == 1 { // every other value also implements FastLog (the reference is String() either way)
+			l.Stringer(bothStringer(f.a))
+		} else {
+			l.Stringer(stringer(f.a))
+		}
 	case "mod":
 		l.Module(name, string(f.a))
 	case "nmod":
